@@ -514,11 +514,13 @@ def neuron_set():
         return VBool(z3.And(dict_is_report(I, ups[0].args["data"]), dict_is_report(I, final)))
     C.helpers["sa_applied"] = sa_applied
     C.helpers["n_updates"] = lambda I: VInt(len(events_named(I, "update_switches")))
+    C.helpers["walk_unrestricted"] = lambda I: VBool(all(not e.args["extra"] for e in events_named(I, "update_switches")))
 
     def emit_update(I, env, res):
         plat = I.force(I.read_field(env["self"].ref, "platform")).ref
         d = I.container(I.force(I.read_field(plat, "hw_switch_data")).ref)
-        emit(I, "update_switches", data=tuple(d.entries))
+        emit(I, "update_switches", data=tuple(d.entries),
+             extra=[k_ for k_, v_ in env.items() if k_ != "self" and I.force(v_).tag != "none"])
 
     def switches_follow_report(I):
         """every switch of THIS platform ends with hw_state = its reported bit, and its logical change (state xor
@@ -553,7 +555,7 @@ def neuron_set():
         return VBool(z3.And(conj + [z3.BoolVal(True)]))
     C.helpers["switches_follow_report"] = switches_follow_report
     C.helpers["n_new_data"] = lambda I: VInt(len(events_named(I, "new_switch_data.set")))
-    C.trace_helpers = {"sa_applied", "n_updates", "switches_follow_report", "n_new_data"}
+    C.trace_helpers = {"sa_applied", "n_updates", "switches_follow_report", "n_new_data", "walk_unrestricted"}
 
     def report_dict(I, name):
         """platform.hw_switch_data covers the switch numbers of the platform's switches (bounded: numbers 0..15)"""
@@ -582,6 +584,10 @@ def neuron_set():
                    "is stored and applied to the switches exactly once: after any sequence of reports and switch "
                    "events MPF's states equal the LAST report", "implies(old(self.platform.switches_initialized), "
                                                                "sa_applied())"),
+                  ("SA2: ... and EVERY switch of the platform is reconciled with it (US1 applies to the whole walk: it is "
+                   "called without an argument that restricts it, e.g. to the bits that differ from the previous report - "
+                   "switch events in between never update the stored report)",
+                   "implies(old(self.platform.switches_initialized), walk_unrestricted())"),
                   ("before the switches are initialised the data is ignored",
                    "implies(not old(self.platform.switches_initialized), n_updates() == 0)")],
          modifies=["self.platform.hw_switch_data", "self.platform.new_switch_data.flag",
@@ -595,5 +601,43 @@ def neuron_set():
     return C
 
 
+def reader_set():
+    """FAST reader task: decoding is independent of how the bytes are split across reads - EVERY chunk that was read, a
+    lone <CR> included (it terminates the frame whose bytes came in the reads before), reaches the frame parser once"""
+    C = ContractSet("C14r", "every chunk read reaches the frame parser")
+    C.cls("LogMixin", fields={})
+    C.cls("FastSerialCommunicator", file=FAST, bases=["LogMixin"], fields={})
+
+    def read(I, env, a, k):
+        r = I.fresh(Opt(Bytes), I.fresh_name("chunk"))
+        emit(I, "read", chunk=r)
+        return r
+    C.ext("FastSerialCommunicator.read", model=read,
+          trusted_reason="reads up to n bytes from the serial stream; None when the connection is gone (A-ASYNCIO)")
+    C.ext("FastSerialCommunicator.parse_incoming_raw_bytes",
+          model=lambda I, env, a, k: (emit(I, "parse", chunk=a[0]), NONE)[1],
+          trusted_reason="the frame parser (main set: every step cuts exactly the first <CR>-terminated segment)")
+
+    def chunk_parsed(I):
+        tr = [e for e in I.cur_trace() if e.name in ("read", "parse")]
+        if not tr or tr[0].name != "read" or len([e for e in tr if e.name == "read"]) != 1:
+            return VBool(False)
+        chunk = tr[0].args["chunk"]
+        parses = tr[1:]
+        if len(parses) == 0:
+            return VBool(I.eq(chunk, NONE))
+        if len(parses) != 1:
+            return VBool(False)
+        return VBool(z3.And(z3.Not(I.eq(chunk, NONE)), I.eq(parses[0].args["chunk"], chunk)))
+    C.helpers["chunk_parsed"] = chunk_parsed
+    C.trace_helpers = {"chunk_parsed"}
+    C.fn("FastSerialCommunicator._socket_reader",
+         loops={0: LoopSpec(invariant=[], body_ensures=[
+             ("RD1: the chunk just read is handed to the frame parser, unchanged and exactly once - whatever it contains "
+              "(only the end of the stream, None, is not parsed)", "chunk_parsed()")])},
+         modifies=[], raises={})
+    return C
+
+
 def build_extra():
-    return [neuron_set()]
+    return [neuron_set(), reader_set()]
